@@ -135,9 +135,15 @@ def make_machine(mod, col, kinds=None, faults='some', rich=True, degenerate=True
         @rule(data=st.data())
         def send(self, data):
             try:
-                state = xmlcmp.state_of(ET.fromstring(str(self.ro)))
+                root_now = ET.fromstring(str(self.ro))
             except ET.ParseError as e:
                 raise env.LibraryFault(f'serialisation-not-well-formed|str(ro) of a live running order does not parse: {e}')
+            if root_now.find('roCreate') is None:
+                # only a defective tree gets here (a refused or half-applied merge took the element away):
+                # no later step can be judged against such a state
+                raise env.LibraryFault('running-order-without-roCreate|a live running order serialises without its '
+                                       f'roCreate element after {len(self.hist) - 1} merged or refused message(s)')
+            state = xmlcmp.state_of(root_now)
             for sid, its in state:
                 if sid not in self.seen_s:
                     self.seen_s.append(sid)
